@@ -296,6 +296,47 @@ def check_det(ck, prog):
     ck.floor("C06-DET", 8)
 
 
+def check_slice(ck, prog):
+    """block_decode(): "one side of the Block is complete but the filter chain did not finish" is an error only when the
+    other side had room to make progress in this very call -- otherwise the verdict would depend on where the caller's
+    buffer ended."""
+    ck.rule("C06-SLICE", "size-mismatch errors of the Block decoder are raised only when the other buffer still had room")
+    f = prog.fn("block_decode", "block_decoder.c")
+    ck.saw_function(f)
+    doms = cfg.dominators(f)
+    okb = [b for b in f.blocks.values() if b.term and "cond" in b.term and ex.show(b.term["cond"]) == "ret == LZMA_OK"]
+    if len(okb) != 1:
+        raise AnalysisBroken("block_decode: `ret == LZMA_OK` region not found")
+    region = okb[0].succs[0]
+    allowed = [{"comp_done", "uncomp_done"}, {"comp_done", "*out_pos < out_size"}, {"uncomp_done", "*in_pos < in_size"}]
+    n = 0
+    for b in f.blocks.values():
+        if region not in doms.get(b.id, ()) and b.id != region:
+            continue
+        rets = [ex.deref(e) for e in b.elems if e is not None and ex.deref(e).get("k") == "ret"]
+        if not rets or ex.show(rets[0].get("e")) != "LZMA_DATA_ERROR":
+            continue
+        conds = set()
+        for d in doms.get(b.id, ()):
+            blk = f.blocks[d]
+            if d == okb[0].id or not (blk.term and "cond" in blk.term and len(blk.succs) == 2):
+                continue
+            if region not in doms.get(d, ()) and d != region:
+                continue
+            t_ = blk.succs[0]
+            if t_ is not None and (t_ == b.id or t_ in doms.get(b.id, ())):
+                conds.add(ex.show(blk.term["cond"]))
+        n += 1
+        ck.ob("C06-SLICE", "block_decode:data-error@%d" % n, conds in allowed, common.where(f, rets[0]),
+              "block_decode: LZMA_DATA_ERROR at line %s is raised under %s" % (ex.line(rets[0]), sorted(conds))
+              if conds in allowed else
+              "block_decode(): LZMA_DATA_ERROR at line %s is raised under %s only: when the caller's other buffer is "
+              "full/empty at that moment a valid Block is rejected, i.e. the result depends on buffer slicing" % (
+                  ex.line(rets[0]), sorted(conds)), key="SLICE:block_decode:%s" % "+".join(sorted(conds)))
+    if n != 3:
+        raise AnalysisBroken("block_decode: expected 3 size-mismatch returns, found %d" % n)
+
+
 def run(ck):
     ck.explanation = (
         "Static necessary conditions of slicing independence: (RESUME) liveness/reaching-definition "
@@ -310,6 +351,7 @@ def run(ck):
     check_resume(ck, prog)
     check_crc(ck, prog)
     check_det(ck, prog)
+    check_slice(ck, prog)
     # a re-used coder must behave like a fresh one ("the same data with the same options always yields identical bytes",
     # "the same final status"): no session member may keep a value from the previous use on some init paths only
     # an encoder that reports the end of its output before its last state has run produces output whose length depends
